@@ -87,6 +87,7 @@ type Regex struct {
 	engine  *meta.Engine
 	pattern string
 	longest bool // if true, prefer leftmost-longest match (POSIX semantics)
+	posix   bool // if true, pattern was compiled by CompilePOSIX (POSIX ERE syntax)
 }
 
 // Regexp is an alias for Regex to provide drop-in compatibility with stdlib regexp.
@@ -148,9 +149,20 @@ func MustCompile(pattern string) *Regex {
 // that early regular expression implementations used and that POSIX
 // specifies.
 func CompilePOSIX(pattern string) (*Regex, error) {
-	re, err := Compile(pattern)
+	// Like stdlib, parse with the POSIX flag set: Perl extensions (\d, \b, (?i),
+	// non-greedy operators, ...) are syntax errors, repeated operators (a**) are not.
+	parsed, err := syntax.Parse(pattern, syntax.POSIX)
+	if err != nil {
+		return nil, &meta.CompileError{Pattern: pattern, Err: err}
+	}
+	engine, err := meta.CompileRegexp(parsed, meta.DefaultConfig())
 	if err != nil {
 		return nil, err
+	}
+	re := &Regex{
+		engine:  engine,
+		pattern: pattern,
+		posix:   true,
 	}
 	re.Longest()
 	return re, nil
@@ -479,6 +491,14 @@ func (r *Regex) Longest() {
 	r.engine.SetLongest(true)
 }
 
+// syntaxFlags returns the regexp/syntax flags the pattern was parsed with.
+func (r *Regex) syntaxFlags() syntax.Flags {
+	if r.posix {
+		return syntax.POSIX
+	}
+	return syntax.Perl
+}
+
 // LiteralPrefix returns a literal string that must begin any match of the
 // regular expression re. It returns the boolean true if the literal string
 // comprises the entire regular expression.
@@ -493,7 +513,7 @@ func (r *Regex) Longest() {
 //	prefix2, complete2 := re2.LiteralPrefix()
 //	// prefix2 = "Hello", complete2 = true
 func (r *Regex) LiteralPrefix() (prefix string, complete bool) {
-	re, err := syntax.Parse(r.pattern, syntax.Perl)
+	re, err := syntax.Parse(r.pattern, r.syntaxFlags())
 	if err != nil {
 		return "", false
 	}
@@ -1660,7 +1680,12 @@ func (r *Regex) Copy() *Regex {
 	// Create a new Regex with the same pattern
 	// Note: This re-compiles the pattern, which is slightly slower than
 	// sharing the internal engine, but ensures complete independence.
-	re, err := Compile(r.pattern)
+	compile := Compile
+	if r.posix {
+		// The pattern may only be valid POSIX ERE (e.g. `a**`).
+		compile = CompilePOSIX
+	}
+	re, err := compile(r.pattern)
 	if err != nil {
 		// This should never happen since the pattern was already compiled
 		return nil
